@@ -1,5 +1,5 @@
 #!/bin/bash
-V=${VERIF_SRC:-/verif}   # where the harness sources are read from (a snapshot copy keeps a long matrix run stable)
+export V=${VERIF_SRC:-/verif}   # where the harness sources are read from (a snapshot copy keeps a long matrix run stable)
 # Runs every seeded change against the check of its own property (and the related ones given in
 # seeded/<id>/meta.json "also") on scratch worktrees, 4 at a time, and writes seeded/MATRIX.md.
 cd $V
